@@ -175,6 +175,7 @@ def check(run):
     dist = Counter()
     base = blockgen.gen_blocks(rng.getrandbits(32), 90 if quick else 500, allow_split=True, max_len=24)
     base += [s for s in blockgen.snippet_blocks()[::2]]
+    base += blockgen.mem_boundary_blocks()[::2 if quick else 1]
     files = sorted(glob.glob(os.path.join(common.REPO, "examples", "jsons-solc", "*.json_solc")))
     small = sorted(files, key=os.path.getsize)[:2 if quick else 8]
     shipped = []
